@@ -198,10 +198,9 @@ class C07(Prop):
             raise Violation('abserr', '%s: abserr is not a finite non-negative real array' % tag,
                             abserr=abserr)
 
-        # (5) length-1 sequence / no terms: unchanged
-        if used == 0 and not np.array_equal(out, seq):
-            raise Violation('unchanged', '%s: a sequence extrapolated with 0 terms (len %d) was changed'
-                            % (tag, length), out=out, sequence=seq)
+        # (5) a length-1 sequence is returned unchanged
+        if length == 1 and not np.array_equal(out, seq):
+            raise Violation('unchanged', '%s: a length-1 sequence was changed' % tag, out=out, sequence=seq)
 
         # (6) columns independent
         if ncols > 1:
